@@ -26,6 +26,7 @@ type kitStepResult struct {
 	resp    *envoy.CheckResponse
 	err     error
 	pre     *kitSlot // what the store held for the carried session before the check (nil: nothing)
+	preCopy oidc.TokenResponse // field-wise copy of pre.tokens (detects in-place modification)
 }
 
 type kitStepOpts struct {
@@ -44,6 +45,9 @@ func kitStep(o kitStepOpts) *kitStepResult {
 	if r.carried != "" {
 		if sl := r.store.slots[r.carried]; sl != nil {
 			r.pre = &kitSlot{tokens: sl.tokens, auth: sl.auth}
+			if sl.tokens != nil {
+				r.preCopy = *sl.tokens
+			}
 		}
 	}
 	r.resp = &envoy.CheckResponse{}
@@ -144,6 +148,12 @@ func verifC02(pathShape int) {
 				vn.Assert("C02/refresh-refresh-token-is-new-or-held", vn.Or(t.RefreshToken == old.RefreshToken, t.RefreshToken == body.refresh))
 			}
 		}
+	}
+	// tokens change only through SetTokenResponse: the value the store handed out must not have
+	// been modified in place (a store may hand out its own object)
+	if r.pre != nil && r.pre.tokens != nil {
+		now := r.pre.tokens
+		vn.Assert("C02/held-tokens-not-modified-in-place", vn.And(now.IDToken == r.preCopy.IDToken, now.AccessToken == r.preCopy.AccessToken, now.RefreshToken == r.preCopy.RefreshToken, now.AccessTokenExpiresAt.Equal(r.preCopy.AccessTokenExpiresAt)))
 	}
 	if r.err != nil || !kitOK(r.resp) {
 		return
